@@ -27,6 +27,8 @@ enum W {
 
 #[derive(Default)]
 struct Shared {
+    /// readiness polls since the driver last polled the task (watchdog against retrying within one poll)
+    ready_polls: usize,
     gate_open: bool,
     granted: bool,
     closed: bool,
@@ -60,6 +62,10 @@ impl Sink<ClientMessage<String>> for T {
     type Error = std::io::Error;
     fn poll_ready(self: Pin<&mut Self>, _: &mut Context<'_>) -> Poll<Result<(), Self::Error>> {
         let mut s = self.0.lock().unwrap();
+        s.ready_polls += 1;
+        if s.ready_polls > 10_000 {
+            panic!("C14: the transport said not-ready and its readiness was polled more than 10000 times within one poll of the task: retrying within the same poll instead of returning control");
+        }
         if s.gate_open {
             s.granted = true;
             Poll::Ready(Ok(()))
@@ -181,6 +187,7 @@ impl Run {
         }
     }
     fn poll_dispatch(&mut self) {
+        self.shared.lock().unwrap().ready_polls = 0;
         if self.dispatch_done.is_none() {
             match self.dispatch.as_mut().poll(&mut Self::cx()) {
                 Poll::Ready(r) => self.dispatch_done = Some(r),
